@@ -97,6 +97,7 @@ def evsOfRpc (kind client cls : String) (cmd ans : List String) : List Ev :=
         let isErr := ans.headD "" != "ok"
         let ttl := ((ans.getD 1 "").splitOn "=").getD 1 "0" |>.toNat? |>.getD 0
         let cts := ((ans.getD 2 "").splitOn "=").getD 1 "0" |>.toNat? |>.getD 0
+        let act := ((ans.getD 3 "").splitOn "=").getD 1 "0" |>.toNat? |>.getD 0
         -- an async primary reports its min_commit_ts (token `mincommit=` after `async=1`)
         let asyncMC : List Ev :=
           if answered && ans.contains "async=1" then
@@ -104,7 +105,7 @@ def evsOfRpc (kind client cls : String) (cmd ans : List String) : List Ev :=
             | some mcv => [Ev.secAnswer client lt [mcv] false 0]
             | none => []
           else []
-        [Ev.status client fate p lt cs cur (rb == "1") answered ttl cts isErr] ++ asyncMC
+        [Ev.status client fate p lt cs cur (rb == "1") answered ttl cts isErr act] ++ asyncMC
       | _, _, _, _ => []
     | ["plock", p, st, _fu, _ttl, _mc, _flags, ms] =>
       match hx p, st.toNat? with
